@@ -482,6 +482,33 @@ Proof.
   intros I Sh. apply (trace_ref compact now cs 0 0 m_init s_init); [apply simS_init|lia|exact I|apply LBS_init|lia|exact Sh].
 Qed.
 
+(* ---------- the table key counter: both models count the same stored keys ---------- *)
+Lemma rel2_count {A B} (P : A -> B -> Prop) (pa : A -> bool) (pb : B -> bool) t la lb :
+  rel2 P la lb -> (forall k a b, In (k, a) la -> P a b -> pa a = pb b) -> count_if pa t la = count_if pb t lb.
+Proof.
+  intros R H. unfold count_if. f_equal. induction R as [|k a b la lb Pab R IH]; [reflexivity|].
+  cbn [filter fst snd]. rewrite (H k a b (or_introl eq_refl) Pab).
+  assert (IH' : length (filter (fun kv => in_table t (fst kv) && pa (snd kv)) la) =
+                length (filter (fun kv => in_table t (fst kv) && pb (snd kv)) lb))
+    by (apply IH; intros k' a' b' Hin; apply (H k' a' b'); right; exact Hin).
+  destruct (in_table t k && pb b); cbn [length]; rewrite IH'; reflexivity.
+Qed.
+
+Theorem table_counts_agree compact clock ms ss t : simS compact clock ms ss ->
+  map_table_count t ms = spec_table_count t ss.
+Proof.
+  intros [Rs Sh Sst Sz Sl Skv _]. unfold map_table_count, spec_table_count. rewrite Skv.
+  rewrite (rel2_count _ (fun x : xr hcoll => exists_coll (x_r x)) (fun x : xr shash => nonempty (x_r x)) t _ _ Sh).
+  2:{ intros k a b Hin [_ S]. apply (live_c_sim compact clock); [apply (rs_hash _ _ _ Rs k a Hin)|exact S]. }
+  rewrite (rel2_count _ (fun x : xr scoll => exists_coll (x_r x)) (fun x : xr sset => nonempty (x_r x)) t _ _ Sst).
+  2:{ intros k a b Hin [_ S]. apply (live_c_sim compact clock); [apply (rs_set _ _ _ Rs k a Hin)|exact S]. }
+  rewrite (rel2_count _ (fun x => live_z (x_r x)) (fun x : xr szset => nonempty (x_r x)) t _ _ Sz).
+  2:{ intros k a b Hin [_ S]. apply (live_z_sim compact clock); [apply (rs_zset _ _ _ Rs k a Hin)|exact S]. }
+  rewrite (rel2_count _ (fun x => l_exists (x_r x)) (fun x : xr slist => nonempty (x_r x)) t _ _ Sl).
+  2:{ intros k a b Hin [_ S]. apply (live_l_abs compact clock); [apply (rs_list _ _ _ Rs k a Hin)|exact S]. }
+  reflexivity.
+Qed.
+
 (* ---------- where the timestamps matter ----------
    The raft timestamp reaches the data as the generation (ValueVersion) that wait_compact gives a collection
    created while no live meta key exists (prepareCollKeyForWrite / renewOnExpired), as the clock of the expiry
